@@ -88,6 +88,8 @@ TrRate == Ev.op = "RateBuckets" /\ UNCHANGED s
 
 \* ---------------------------------------------------------------- generated configurations
 TrCfgDone == Ev.op = "CfgDone" /\ UNCHANGED s /\ Step("")
+\* the scenario could not be set up (no observation about the limits; counted by props/c17.py)
+TrSkip == Ev.op = "Skip" /\ UNCHANGED s /\ Step("")
 
 \* ---------------------------------------------------------------- terminal events
 \* @obligation C17.config.crash / C17.config.hang (and the same for every other session-level sub-driver)
@@ -100,7 +102,7 @@ TraceNext ==
        \/ TrUQWarm \/ TrUQReq \/ TrUQMarker \/ TrUQPiece \/ TrUQReject \/ TrUQEnd
        \/ TrPLReq \/ TrPLGone \/ TrPLChoke \/ TrPLUnchoke \/ TrPLEnd
        \/ TrRamSnap \/ TrRamStats \/ TrRamRest \/ TrRamDone
-       \/ TrWsSnap \/ TrWsHttp \/ TrWsEnd \/ TrRate \/ TrCfgDone
+       \/ TrWsSnap \/ TrWsHttp \/ TrWsEnd \/ TrRate \/ TrCfgDone \/ TrSkip
 
 TraceSpec == TraceInit /\ [][TraceNext]_tvars
 =============================================================================
